@@ -4,6 +4,7 @@ import contextlib
 import os
 import shutil
 import tempfile
+import time
 import typing as ty
 from pathlib import Path
 
@@ -286,7 +287,10 @@ def one_case(ctx, rng, basedir, spec=None):
 def run(ctx):
     rng = ctx.rng
     basedir = tempfile.mkdtemp(prefix="verif-c34-", dir="/tmp")
-    n = ctx.budget(200, 2000)
+    n = ctx.budget(200, 1500)
+    # shared machine: also stop on a wall-clock limit (never below a floor); the evidence reports what was run
+    limit = (60 if ctx.tier == "quick" else 400) * min(ctx.widen, 3)
+    floor = 70 if ctx.tier == "quick" else 500
     cases, metas, skipped = [], [], 0
     try:
         for spec in ctx.corpus():
@@ -294,7 +298,10 @@ def run(ctx):
             if t is not None:
                 cases.append(t)
                 metas.append(m)
-        for _ in range(n):
+        t0 = time.time()
+        for i in range(n):
+            if i >= floor and time.time() - t0 > limit:
+                break
             t, m = one_case(ctx, rng, basedir)
             if t is None:
                 skipped += 1
